@@ -75,7 +75,8 @@ def rsaAlg (bits : Nat) : Option String := tableLookup rsaTable bits
 /-- `getECDSAAlgorithm` -/
 def ecdsaAlg (bits : Nat) : Option String := tableLookup ecdsaTable bits
 
-/-- `Entry.JOSEAlgorithm`; `none` is the panic for unsupported sizes -/
+/-- `Entry.JOSEAlgorithm`; `none` is the panic for unsupported sizes, which `load` excludes with `CheckJOSESupport`
+before it calls `JWK()` -/
 def joseAlg (k : PubKey) : Option String :=
   match k.family with
   | .rsa => rsaAlg k.bits
@@ -103,7 +104,7 @@ def buildStore : List RawEntry → List String → Option (List Entry)
     else if kidOf e ∈ known then none
     else (buildStore rest (kidOf e :: known)).map (fun es => ⟨kidOf e, e.key, e.chain, e.signUsable⟩ :: es)
 
-/-- `Entry.JWK`: built from the public half; `none` is the panic of `JOSEAlgorithm` -/
+/-- `Entry.JWK`: built from the public half; `none` is the panic of `JOSEAlgorithm` (never reached from `load`) -/
 def Entry.jwk (e : Entry) : Option Jwk :=
   (joseAlg e.key.pub).map (fun a => ⟨e.kid, a, "sig", e.key.pub, e.chain⟩)
 
@@ -116,9 +117,13 @@ structure State where
   pubKeys : List Jwk
 deriving DecidableEq, Repr
 
-/-- `ks.Entries()[0]` without a configured key id (`none`: the index panic on an empty store), else `GetKey` -/
+/-- `keystore.SelectKey`: `GetKey` with a configured key id, else the first entry; `none` is the error for an unknown
+id (`ErrNoSuchKey`) resp. a store without entries (`ErrNoKeys`) -/
 def selectEntry (keyID : String) (es : List Entry) : Option Entry :=
   if keyID = "" then es.head? else es.find? (fun e => e.kid = keyID)
+
+/-- `Entry.CheckJOSESupport`: the key size has a JOSE algorithm -/
+def Entry.supported (e : Entry) : Bool := (joseAlg e.key.pub).isSome
 
 def allJwks : List Entry → Option (List Jwk)
   | [] => some []
@@ -126,7 +131,10 @@ def allJwks : List Entry → Option (List Jwk)
     | some j, some js => some (j :: js)
     | _, _ => none
 
-/-- `jwtSigner.load` on a parsed PEM file; `none` = error or panic, in both cases nothing is written -/
+/-- `jwtSigner.load` on a parsed PEM file; `none` = one of its errors, in every case nothing is written: the store
+cannot be built (invalid chain, duplicate key id), no key can be selected (unknown key id, no entries), some entry has
+an unsupported key size, the selected entry's certificate may not sign.  (After these checks `Entry.JWK` cannot fail;
+the last `none` is unreachable, see `Lemmas/SignerStore.lean: allJwks_of_supported`.) -/
 def load (keyID : String) (raw : List RawEntry) : Option State :=
   match buildStore raw [] with
   | none => none
@@ -134,7 +142,8 @@ def load (keyID : String) (raw : List RawEntry) : Option State :=
     match selectEntry keyID es with
     | none => none
     | some kse =>
-      if kse.chain ≠ [] ∧ kse.signUsable = false then none
+      if es.all Entry.supported = false then none
+      else if kse.chain ≠ [] ∧ kse.signUsable = false then none
       else match allJwks es, kse.jwk with
         | some keys, some jwk => some ⟨jwk, kse.key, keys⟩
         | _, _ => none
@@ -144,7 +153,7 @@ abbrev File := Option (List RawEntry)
 
 def loadFile (keyID : String) (f : File) : Option State := f.bind (load keyID)
 
-/-- `OnChanged`: a failed reload leaves the previous generation in place -/
+/-- `OnChanged`: a failed reload is logged and leaves the previous generation in place -/
 def reload (keyID : String) (st : State) (f : File) : State := (loadFile keyID f).getD st
 
 /-! ## claims (`Sign`) -/
